@@ -60,6 +60,15 @@ fn is_keywordish(tok: &str) -> bool {
 /// input dimensions of the tokenizer (look-ahead windows, anchored patterns)
 pub fn name_grid() -> Vec<String> {
     let mut v = vec![];
+    // every identifier character alone, first, last and in the middle of a name
+    for c in ('a'..='z').chain('A'..='Z').chain('0'..='9').chain(['-', '_']) {
+        for name in [format!("{}", c), format!("x{}", c), format!("{}x", c), format!("x{}x", c), format!("{}{}", c, c)] {
+            // the one-letter and digit constants and operators of the language are not names
+            if !["t", "T", "f", "F", "v", "V", "0", "1"].contains(&name.as_str()) {
+                v.push(name);
+            }
+        }
+    }
     for len in (1..=16usize).chain([24, 40, 63, 64, 65, 255, 256, 257, 1000]) {
         for pos in 0..len {
             if len > 16 && pos % (if len > 40 { 61 } else { 5 }) != 0 && pos != len - 1 {
